@@ -234,6 +234,7 @@ def cbmc_group(g, cfile, scratch, tag, props=None, trace=True):
     rc, out, err, _ = run(['goto-cc', '--function', entry, cfile, '-o', base + '.a.gb'], 300)
     if rc != 0:
         raise Undecided('goto-cc failed for %s:\n%s' % (g['name'], (out + err)[-3000:]))
+    plain = not g.get('enforce') and not g.get('replace') and not g.get('replace_extern')
     cmd = ['goto-instrument', '--dfcc', entry]
     if g.get('enforce'):
         cmd += ['--enforce-contract', g['enforce']]   # 'f' or 'f/contract_variant'
@@ -243,9 +244,14 @@ def cbmc_group(g, cfile, scratch, tag, props=None, trace=True):
         cmd += ['--apply-loop-contracts']
     cmd += g.get('instrument_flags', [])
     cmd += [base + '.a.gb', base + '.b.gb']
-    rc, out, err, _ = run(cmd, 600)
-    if rc != 0:
-        raise Undecided('goto-instrument failed for %s:\n%s' % (g['name'], (out + err)[-3000:]))
+    if plain:
+        # plain-assertion group without contract replacement: cbmc on the goto binary as is (full C library models)
+        shutil.copy(base + '.a.gb', base + '.b.gb')
+        out = err = ''
+    else:
+        rc, out, err, _ = run(cmd, 600)
+        if rc != 0:
+            raise Undecided('goto-instrument failed for %s:\n%s' % (g['name'], (out + err)[-3000:]))
     instr_log = out + err
     cb = ['cbmc', base + '.b.gb', '--object-bits', str(g.get('object_bits', 12)), '--no-malloc-may-fail'] + [
         c for c in CBMC_CHECKS if c not in g.get('drop_checks', [])]
